@@ -275,9 +275,103 @@ fn props(a: &[String]) -> ! {
     std::process::exit(0)
 }
 
+/// `disthdr <token>:<byte length> ...`: the atoms are encoded as terms with a distribution header by the real encoder; an independent
+/// reader of the documented DIST_HEADER layout must read every atom back (exit 101 = it cannot, or reads a different atom)
+fn disthdr(a: &[String]) -> ! {
+    let names: Vec<String> = a[2..]
+        .iter()
+        .map(|s| {
+            let p: Vec<&str> = s.split(':').collect();
+            let tok: u64 = p[0].parse().unwrap();
+            let n: usize = p[1].parse().unwrap();
+            let mut t = format!("{:016x}", tok);
+            while t.len() < n {
+                t.push('a');
+            }
+            t.truncate(n);
+            t
+        })
+        .collect();
+    let terms: Vec<erltf::OwnedTerm> = names.iter().map(|n| erltf::OwnedTerm::atom(n.as_str())).collect();
+    let tuple = erltf::OwnedTerm::Tuple(terms.clone());
+    let wrap = a[1] == "disthdr_tuple";
+    let refs: Vec<&erltf::OwnedTerm> = if wrap { vec![&tuple] } else { terms.iter().collect() };
+    let bytes = match erltf::encode_with_dist_header_multi(&refs) {
+        Ok(b) => b,
+        Err(e) => {
+            eprintln!("REPLAY: encoder error {:?}", e);
+            std::process::exit(101);
+        }
+    };
+    let fail = |why: &str| -> ! {
+        eprintln!("REPLAY: independent DIST_HEADER reader: {} (first bytes {:02x?})", why, &bytes[..bytes.len().min(24)]);
+        std::process::exit(101);
+    };
+    if bytes.len() < 3 || bytes[0] != 131 || bytes[1] != 68 {
+        fail("no 131,68 header");
+    }
+    let n = bytes[2] as usize;
+    let fl = n / 2 + 1;
+    let flags = &bytes[3..3 + fl];
+    let nib = |j: usize| if j % 2 == 0 { flags[j / 2] & 0x0f } else { flags[j / 2] >> 4 };
+    let long = nib(n) & 1 == 1;
+    let mut pos = 3 + fl;
+    let mut table: std::collections::HashMap<usize, Vec<u8>> = std::collections::HashMap::new();
+    for i in 0..n {
+        let f = nib(i);
+        let internal = bytes[pos] as usize;
+        pos += 1;
+        let cache_index = (((f & 7) as usize) << 8) | internal;
+        if f & 8 != 0 {
+            let len = if long {
+                let l = ((bytes[pos] as usize) << 8) | bytes[pos + 1] as usize;
+                pos += 2;
+                l
+            } else {
+                let l = bytes[pos] as usize;
+                pos += 1;
+                l
+            };
+            if pos + len > bytes.len() {
+                fail("atom text runs past the end of the message");
+            }
+            table.insert(i, bytes[pos..pos + len].to_vec());
+            pos += len;
+            let _ = cache_index;
+        } else {
+            fail("reference without the new-entry flag and no prior cache");
+        }
+    }
+    if wrap {
+        if pos + 2 > bytes.len() || bytes[pos] != 104 || bytes[pos + 1] as usize != names.len() {
+            fail("SMALL_TUPLE_EXT with the right arity expected");
+        }
+        pos += 2;
+    }
+    for name in &names {
+        if pos + 2 > bytes.len() || bytes[pos] != 82 {
+            fail("term is not an ATOM_CACHE_REF where expected");
+        }
+        let idx = bytes[pos + 1] as usize;
+        pos += 2;
+        match table.get(&idx) {
+            Some(t) if t.as_slice() == name.as_bytes() => {}
+            _ => fail("a term resolves to a different atom than the one encoded"),
+        }
+    }
+    if pos != bytes.len() {
+        fail("trailing bytes");
+    }
+    println!("REPLAY: independent reader read all {} atoms back", names.len());
+    std::process::exit(0)
+}
+
 fn main() {
     let a: Vec<String> = std::env::args().collect();
     let kind = a[1].as_str();
+    if kind == "disthdr" || kind == "disthdr_tuple" {
+        disthdr(&a);
+    }
     if kind == "props" {
         props(&a);
     }
